@@ -31,8 +31,9 @@ def pool():
     }
 
 
-ATTRS = {0: None, 1: {'stroke': 'red', 'class': 'c1'}, 2: {'fill': 'none', 'stroke-width': '2', 'stroke': '#00ff00'}}
-BASE = ('<svg xmlns="%s" version="1.1" width="100" height="80">\n <g id="base">\n  <path d="M 1,1 L 5,1 L 5,4" stroke="red" class="c1"/>\n </g>\n</svg>\n' % NS)
+ATTRS = {0: None, 1: {'stroke': 'red', 'class': 'c1'}, 2: {'fill': 'none', 'stroke-width': '2', 'stroke': '#00ff00'},
+         3: {'d': 'M 0,0 L 9,9', 'stroke': 'blue', 'fill': 'none'}}      # e.g. a dict read from another element: the path passed must win
+BASE = ('<svg xmlns="%s" version="1.1" width="100" height="80">\n <g id="base" style="stroke:blue;opacity:0.5">\n  <path d="M 1,1 L 5,1 L 5,4" stroke="red" class="c1"/>\n </g>\n</svg>\n' % NS)
 
 
 def ident(path, P):
@@ -43,7 +44,7 @@ def ident(path, P):
 
 
 def attrs_ok(got, want):
-    return all(got.get(k) == v for k, v in (want or {}).items())
+    return all(got.get(k) == v for k, v in (want or {}).items() if k != 'd')
 
 
 def replay_history(ck, c, tmp, P):
@@ -140,6 +141,13 @@ def replay_history(ck, c, tmp, P):
                     ids = sorted(ident(p, P) for p in flat if ident(p, P) is not None)
                     if ids != want or len(flat) != len(want):
                         bad('saved-file-unreadable-by-SaxDocument', 'SaxDocument(saved file) found ids %s, document has %s' % (ids, want), want, ids, step)
+                    else:
+                        sx = sp.SaxDocument(fn)
+                        for v, p in zip(sx.tree, sx.flatten_all_paths()):
+                            e = [x for x in entries if x['p'] == ident(p, P)][0]
+                            if not attrs_ok(v, ATTRS[e['a']]):
+                                bad('attributes-changed-by-SaxDocument', 'SaxDocument attributes of path %d: %s, supplied %s' % (
+                                    e['p'], {k: v.get(k) for k in ATTRS[e['a']]}, ATTRS[e['a']]), ATTRS[e['a']], {k: v.get(k) for k in ATTRS[e['a']]}, step)
                 except Exception as e:      # noqa
                     bad('saved-file-SaxDocument-raises', 'SaxDocument(saved file) raised %r' % e, step=step)
             elif h['op'] == 'reload':
@@ -158,10 +166,13 @@ def wsvg_roundtrips(ck, rnd, tmp, P, n):
     combos = [list(c) for r in (1, 2, 3) for c in itertools.permutations(keys, r)]
     rnd.shuffle(combos)
     for lst in combos[:n]:
-        for amode in ('none', 'dicts'):
+        for amode in ('none', 'dicts', 'shared', 'styled'):
             paths = [P[k] for k in lst]
-            attributes = None if amode == 'none' else [dict(ATTRS[1 + (i % 2)]) for i in range(len(lst))]
-            svg_attributes = {'width': '120', 'height': '90', 'viewBox': '0 0 120 90'} if amode == 'dicts' else None
+            shared = dict(ATTRS[2])
+            attributes = None if amode == 'none' else ([shared] * len(lst) if amode == 'shared' else [dict(ATTRS[1 + (i % 2)]) for i in range(len(lst))])
+            svg_attributes = {'width': '120', 'height': '90', 'viewBox': '0 0 120 90'} if amode != 'none' else None
+            if amode == 'styled':
+                svg_attributes['style'] = 'stroke:blue;fill:yellow'
             ck.case(fp=('wsvg', tuple(lst), amode), nontrivial=len(lst) >= 2)
 
             def bad(key, what, exp=None, obs=None):
@@ -185,9 +196,13 @@ def wsvg_roundtrips(ck, rnd, tmp, P, n):
                     bad('Document-differs', 'Document.paths read %s' % [ident(p, P) for p in d], lst, [ident(p, P) for p in d])
                 elif attributes and not all(attrs_ok(dict(p.element.attrib), w) for p, w in zip(d, attributes)):
                     bad('attributes-lost', 'Document element attributes differ', attributes, [dict(p.element.attrib) for p in d])
-                sx = sp.SaxDocument(fn).flatten_all_paths()
+                sd = sp.SaxDocument(fn)
+                sx = sd.flatten_all_paths()
                 if [ident(p, P) for p in sx] != lst:
                     bad('SaxDocument-differs', 'SaxDocument read %s' % [ident(p, P) for p in sx], lst, [ident(p, P) for p in sx])
+                elif attributes and not all(attrs_ok(v, w) for v, w in zip(sd.tree, attributes)):
+                    bad('attributes-changed-by-SaxDocument', 'SaxDocument attribute values %s' % [{k: v.get(k) for k in w} for v, w in zip(sd.tree, attributes)],
+                        attributes, [{k: v.get(k) for k in w} for v, w in zip(sd.tree, attributes)])
             except Exception as e:      # noqa
                 bad('readback-raises-' + type(e).__name__, 'reading back raised %r' % e)
     ck.sample('wsvg', {'paths': combos[0], 'attributes': ATTRS[1], 'svg_attributes': {'width': '120', 'height': '90', 'viewBox': '0 0 120 90'}})
